@@ -101,7 +101,10 @@ def judge(pid, scenarios, owned, nontrivial, tlc_mod, cfg=None, module='FBTrace.
     traces = run_scenarios(scenarios, procs)
     by_id = {sc['id']: sc for sc in scenarios}
     good = []
+    out.lock_edges, out.lock_same = set(), set()
     for t in traces:
+        out.lock_edges |= set(map(tuple, t.get('lock_edges', [])))
+        out.lock_same |= set(map(tuple, t.get('lock_same', [])))
         if t.get('harness_error'):
             out.machinery.append((t['id'], t['harness_error']))
         elif t.get('unjudged'):
